@@ -21,15 +21,21 @@
   produced by the real `HouseholderQR` passes is a specification hypothesis here (`OrthSpec` in `c15_unit_orth_spec`); the real
   passes violate it in floating point when the block of corrections is numerically rank deficient after projection against
   the space (finding F19: Successful with vectors of norm 1e-15).
+  What the real passes DO guarantee for every input — the appended block is the leading part of a Householder Q factor, orthonormal
+  in itself, no zero column — is `OrthBlockSpec` (`c15_extension_block_orthonormal`); that the extension step really is the
+  Householder-QR routine is read off the regenerated call footprint `Gen.JDOrth` (`c15_extension_uses_householder_qr`), and every
+  recorded kernel output is checked against it in the step replay (field `blockok`) and by the harness oracle.
 -/
 import SpectraVerif.Proofs.C15Lemmas
 import SpectraVerif.Proofs.C15Loop
 import SpectraVerif.Proofs.C15Gram
 import SpectraVerif.Proofs.C15Order
 import SpectraVerif.Proofs.C15Orth
+import SpectraVerif.Proofs.C15Block
 import SpectraVerif.Proofs.C15Sizes
 import SpectraVerif.Proofs.C15Dpr
 import SpectraVerif.Gen.Guard
+import SpectraVerif.Gen.JDOrth
 import Mathlib.Data.Matrix.Mul
 import Mathlib.Tactic.NormNum
 
@@ -327,6 +333,77 @@ theorem c15_default_space_orthonormal {R : Type} [CommRing R] {n : Nat} (rows : 
     obtain ⟨i, _, rfl⟩ := List.mem_map.mp hu
     simp
 
+
+/-! ### the extension step: which orthogonaliser runs, and what it guarantees for every input -/
+
+open Gen.JDOrth in
+/-- **the extension step is project + Householder QR.**  Decided over the call footprint `Gen.JDOrth.orth_calls` (every free-function
+    call, member call and class-typed local of every function template of `LinAlg/Orthogonalization.h` and of
+    `SearchSpace::append_new_vectors_to_basis` / `extend_basis`, regenerated from the clang AST of the working tree on every run):
+    (1) `extend_basis` calls `twice_is_enough_orthogonalisation(m_basis_vectors, left_cols_to_skip)` and no other free function;
+    (2) that is two calls of `JensWehner_orthogonalisation(in_output, left_cols_to_skip)`;
+    (3) which is `assert_left_cols_to_skip; subspace_orthogonalisation(in_output, left_cols_to_skip);` then
+        `QR_orthogonalisation(right_cols)` on `right_cols = in_output.rightCols(right_cols_to_ortho)`;
+    (4) `QR_orthogonalisation` builds an `Eigen::HouseholderQR<Matrix>` of the block and assigns `qr.householderQ() * I` to it;
+    (5) no function on this path calls `MGS_orthogonalisation`, `GS_orthogonalisation`, `treat_first_col` or any `normalize` — the
+        Gram–Schmidt routines of the same header, whose `normalize()` leaves a ZERO column when the new columns are linearly
+        dependent — and the only free functions called on the path are the ones named here (+ `std::min`, `Identity`);
+    (6) all of these are function templates of the header.
+    So the kernel `K.orth` of the model stands for a Householder Q factor, whose specification `OrthBlockSpec`
+    (`c15_extension_block_orthonormal`) the step replay checks on every recorded output. -/
+theorem c15_extension_uses_householder_qr :
+    (orth_calls.filter (fun c => c.fn = "SearchSpace::extend_basis" ∧ c.kind ≠ "member")).map (fun c => (c.kind, c.callee, c.args)) =
+      [("call", "twice_is_enough_orthogonalisation", "m_basis_vectors, left_cols_to_skip")] ∧
+    (orth_calls.filter (fun c => c.fn = "twice_is_enough_orthogonalisation")).map (fun c => (c.kind, c.callee, c.args)) =
+      [("call", "JensWehner_orthogonalisation", "in_output, left_cols_to_skip"), ("call", "JensWehner_orthogonalisation", "in_output, left_cols_to_skip")] ∧
+    (orth_calls.filter (fun c => c.fn = "JensWehner_orthogonalisation" ∧ c.kind ≠ "member")).map (fun c => (c.kind, c.callee, c.args)) =
+      [("call", "assert_left_cols_to_skip", "in_output, left_cols_to_skip"),
+       ("call", "subspace_orthogonalisation", "in_output, left_cols_to_skip"),
+       ("local", "Eigen::Ref<Matrix>", "right_cols := in_output.rightCols(right_cols_to_ortho)"),
+       ("call", "QR_orthogonalisation", "right_cols")] ∧
+    (orth_calls.filter (fun c => c.fn = "QR_orthogonalisation" ∧ (c.kind = "local" ∨ c.callee = "householderQ" ∨ c.callee = "noalias"))).map
+        (fun c => (c.kind, c.callee, c.args)) =
+      [("local", "Eigen::HouseholderQR<Matrix>", "qr := (in_output)"), ("member", "noalias", "in_output.leftCols(ncols) | "), ("member", "householderQ", "qr | ")] ∧
+    (∀ c ∈ orth_calls, c.fn ∈ ["SearchSpace::extend_basis", "SearchSpace::append_new_vectors_to_basis", "twice_is_enough_orthogonalisation",
+        "JensWehner_orthogonalisation", "subspace_orthogonalisation", "QR_orthogonalisation", "assert_left_cols_to_skip"] →
+      c.callee ∉ ["MGS_orthogonalisation", "GS_orthogonalisation", "treat_first_col", "normalize", "normalized", "stableNormalize"] ∧
+      (c.kind = "call" → c.callee ∈ ["twice_is_enough_orthogonalisation", "JensWehner_orthogonalisation", "subspace_orthogonalisation",
+        "QR_orthogonalisation", "assert_left_cols_to_skip", "min", "InternalMatrix::Identity"])) ∧
+    (∀ f ∈ ["twice_is_enough_orthogonalisation", "JensWehner_orthogonalisation", "subspace_orthogonalisation", "QR_orthogonalisation",
+        "assert_left_cols_to_skip"], f ∈ orth_functions) := by
+  refine ⟨by decide, by decide, by decide, by decide, by decide, by decide⟩
+
+section block
+variable {R M : Type} [CommRing R] [AddCommGroup M] [Module R M] (K : Kern R M)
+
+/-- **c15_extension_block_orthonormal.**  For every orthogonaliser that leaves the old columns alone and meets the Q-factor
+    specification `OrthBlockSpec … d` in dimension `d` (as many columns out as in; the columns behind the first `left_cols_to_skip`
+    orthonormal among themselves — what the leading columns of a Householder Q factor are for EVERY block of at most `d` columns,
+    linearly dependent or not), every state (orthonormal basis or not) and every list of at most `d` corrections (dependent,
+    repeated, zero; `correction_size ≤ n` by `c15_sizes`): `extend_basis` keeps the old columns,
+    appends exactly as many columns as corrections, the appended block is orthonormal, and (in a non-trivial ring) NO appended
+    column is the zero vector.  The harness checks `OrthBlockSpec` on every recorded kernel output (`blockok`). -/
+theorem c15_extension_block_orthonormal (ip : M → M → R) (hip : IsSymBilin ip) {d : Nat} (hO : OrthKeepsLeft K)
+    (hB : OrthBlockSpec ip K d) (s : St R M) (newv : List M) (hd : newv.length ≤ d) (h01 : (1 : R) ≠ 0) :
+    let b := (extendBasis K newv s).basis
+    b.take s.basis.length = s.basis ∧ b.length = s.basis.length + newv.length ∧
+    ON ip (b.drop s.basis.length) ∧ ∀ v ∈ b.drop s.basis.length, ip v v = 1 ∧ v ≠ 0 := by
+  intro b
+  obtain ⟨h1, h2, h3⟩ := extend_block ip hO hB s newv hd
+  refine ⟨?_, ?_, h3, ?_⟩
+  · show (extendBasis K newv s).basis.take s.basis.length = s.basis
+    rw [h1]; simp
+  · show (extendBasis K newv s).basis.length = _
+    rw [h1, List.length_append, h2]
+  · intro v hv
+    refine ⟨h3.2 v hv, ?_⟩
+    intro hz
+    have := h3.2 v hv
+    rw [hz, hip.zero_left] at this
+    exact h01 this.symm
+
+end block
+
 /-! ### c15_correction_defined -/
 section dpr
 variable {F : Type} [Field F]
@@ -436,5 +513,71 @@ example :
     (computeWithGuess (K1 2) cfg1 (fun _ => [1]) [1] 7 1 0 construct).1.info = .notConverging ∧
     (computeWithGuess (K1 2) cfg1 (fun _ => [1]) [1] 7 1 0 construct).1.pairs.map (fun p => (p.value - 2, p.residue)) = [(0, 0)] := by
   decide
+
+/-- 2-dimensional kernels for the operator `[[2,1],[1,2]]` (eigenvalues 1 and 3) on `ℤ × ℤ` whose orthogonaliser keeps the old
+    columns and the column count but REPLACES THE NEW COLUMNS BY ZERO (what a Gram–Schmidt sweep with `normalize()` leaves of a
+    column that depends on the others); the eigen-solver returns the exact decomposition of the small matrix `diag(2, 0)`. -/
+def K3 : Kern ℤ (ℤ × ℤ) :=
+  { zero := (0, 0), add := fun u v => (u.1 + v.1, u.2 + v.2), sub := fun u v => (u.1 - v.1, u.2 - v.2),
+    smul := fun c v => (c * v.1, c * v.2), dot := fun u v => u.1 * v.1 + u.2 * v.2, norm := fun v => v.1 * v.1 + v.2 * v.2,
+    lt := fun x y => decide (x < y), apply := fun v => (2 * v.1 + v.2, v.1 + 2 * v.2),
+    eig := fun G => if G.length = 2 then (true, [0, 2], [[0, 1], [1, 0]]) else (true, [(G.headD []).headD 0], [[1]]),
+    orth := fun l k => l.take k ++ (l.drop k).map (fun _ => (0, 0)), argsort := fun _ vs => List.range vs.length }
+
+def cfg3 : Cfg := { nev := 1, maxSize := 2, initSize := 1, corrSize := 1 }
+
+/-- counter-model showing that `OrthBlockSpec` is needed (and what replacing the Householder-QR kernel by a routine that can leave a
+    zero column does): the orthogonaliser of `K3` keeps the old columns and the column count, the initial space `[(1,0)]` is
+    orthonormal, yet after one expansion the basis is `[(1,0), (0,0)]`, `info = Successful`, `compute` returns `nev = 1`, the returned
+    eigenvalue is `0` — not an eigenvalue: `A v = 0·v` only for `v = 0` — and the returned eigenvector is the zero vector. -/
+example :
+    (∀ (l : List (ℤ × ℤ)) (k : Nat), (K3.orth l k).take k = l.take k ∧ (K3.orth l k).length = l.length) ∧
+    (computeWithGuess K3 cfg3 (fun _ => [(0, 1)]) [(1, 0)] 7 5 1 construct).1.info = .successful ∧
+    (computeWithGuess K3 cfg3 (fun _ => [(0, 1)]) [(1, 0)] 7 5 1 construct).2 = 1 ∧
+    (computeWithGuess K3 cfg3 (fun _ => [(0, 1)]) [(1, 0)] 7 5 1 construct).1.basis = [(1, 0), (0, 0)] ∧
+    eigenvalues cfg3 (computeWithGuess K3 cfg3 (fun _ => [(0, 1)]) [(1, 0)] 7 5 1 construct).1 = [0] ∧
+    eigenvectors cfg3 (computeWithGuess K3 cfg3 (fun _ => [(0, 1)]) [(1, 0)] 7 5 1 construct).1 = [(0, 0)] ∧
+    (∀ v : ℤ × ℤ, K3.apply v = K3.smul 0 v → v = (0, 0)) := by
+  refine ⟨?_, by decide, by decide, by decide, by decide, by decide, ?_⟩
+  · intro l k
+    constructor
+    · simp only [K3]
+      rw [List.take_append, List.take_take, Nat.min_self, List.length_take]
+      have : k - min k l.length = 0 ∨ l.length - k = 0 := by omega
+      rcases this with h | h
+      · rw [h]; simp
+      · simp [h]
+    · simp [K3]; omega
+  · intro v h
+    simp [K3] at h
+    obtain ⟨h1, h2⟩ := h
+    ext <;> simp <;> omega
+
+/-- like `K1`, with an orthogonaliser that keeps the old columns and overwrites every new column by the unit vector `1` of the
+    1-dimensional space `ℤ` -/
+def K4 (a : ℤ) : Kern ℤ ℤ := { K1 a with orth := fun l k => l.take k ++ (l.drop k).map (fun _ => 1) }
+
+/-- the hypotheses of `c15_extension_block_orthonormal` are satisfiable (dimension `d = 1`) -/
+example (a : ℤ) : OrthKeepsLeft (K4 a) ∧ OrthBlockSpec (fun x y : ℤ => x * y) (K4 a) 1 ∧ IsSymBilin (fun x y : ℤ => x * y) ∧ (1 : ℤ) ≠ 0 := by
+  refine ⟨?_, ?_, ⟨fun u v w => by ring, fun c u w => by simp [mul_assoc], fun u v => mul_comm u v⟩, by decide⟩
+  · intro l k
+    simp only [K4, K1]
+    rw [List.take_append, List.take_take, Nat.min_self, List.length_take]
+    have : k - min k l.length = 0 ∨ l.length - k = 0 := by omega
+    rcases this with h | h
+    · rw [h]; simp
+    · simp [h]
+  · intro l k h
+    constructor
+    · simp [K4, K1]; omega
+    · simp only [K4, K1]
+      rw [List.drop_append, List.length_take]
+      have h1 : List.drop k (List.take k l) = [] := by simp
+      rw [h1, List.nil_append, ← List.map_drop]
+      generalize hm : List.drop (k - min k l.length) (List.drop k l) = t
+      have h2 : t.length ≤ 1 := by rw [← hm]; simp; omega
+      match t, h2 with
+      | [], _ => simp [ON]
+      | [x], _ => simp [ON]
 
 end C15
